@@ -27,3 +27,63 @@ Theorem C02_kernel_sound : forall hp sg off fk_ok table s, 0 < hp ->
 Proof. intros hp sg off fk_ok table s H. exact (kernel_sound hp H sg off fk_ok table s). Qed.
 
 Check (eq_refl : twin_row [1; 2; 3; 4; 5; 6] = [1; 2; 3; 4 + PI; - 5; 6 - PI]).
+
+(** ** COMPLETENESS.  The originating configuration is one of the eight rows of the generated branch table, every
+    intermediate value on that row is finite, the finishing glue lets it through, and plain [inverse] returns it.
+    Hypotheses = "away from singularities" spelled out on the model angles q = j * sign - offset:
+      - a real forearm (a2, c3 not both zero) and upper arm (c2 <> 0),
+      - elbow/reach: the wrist centre is not on the J2 axis            (X^2 + Z^2 > 0),
+      - shoulder: the wrist centre is not in the plane where front and back arm configurations meet (X + a1 <> 0),
+      - wrist: sin q5 <> 0,
+    sign corrections are +-1, and the pose comparison accepts identical poses. *)
+From Coq Require Import Lra Psatz.
+From VF Require Import Model.Constraints Proofs.SoundP Proofs.CompleteP Proofs.CompleteK.
+
+(** the generated table is literally the hand-written closed-form expressions (conversion) *)
+Theorem C02_rows_eq : forall p pose, ik_theta p pose =
+  [row p pose false false false; row p pose false true false; row p pose true false false; row p pose true true false;
+   row p pose false false true; row p pose false true true; row p pose true false true; row p pose true true true].
+Proof. exact rows_eq. Qed.
+
+(** table level: some row equals the configuration (same sine and cosine entry by entry) with all definedness flags set *)
+Theorem C02_table_complete : forall (p : Params) (q : J6),
+  0 < p_a2 p * p_a2 p + p_c3 p * p_c3 p -> p_c2 p <> 0 ->
+  0 < aX (p_a2 p) (p_c2 p) (p_c3 p) (j2 q) (j3 q) * aX (p_a2 p) (p_c2 p) (p_c3 p) (j2 q) (j3 q) +
+      aZ (p_a2 p) (p_c2 p) (p_c3 p) (j2 q) (j3 q) * aZ (p_a2 p) (p_c2 p) (p_c3 p) (j2 q) (j3 q) ->
+  aX (p_a2 p) (p_c2 p) (p_c3 p) (j2 q) (j3 q) + p_a1 p <> 0 ->
+  sin (j5 q) <> 0 ->
+  exists back down flip,
+    Forall2 sc (row p (L6 p q) back down flip) [j1 q; j2 q; j3 q; j4 q; j5 q; j6 q] /\
+    forallb snd (nth (row_index back down flip) (ik_theta_def p (L6 p q)) []) = true.
+Proof. exact table_complete. Qed.
+
+(** entry point: [inverse] on the pose of a joint vector returns that vector, up to whole turns, when it is within the limits *)
+Theorem C02_inverse_complete : forall (p : Params) (j : J6) (compare : Iso -> Iso -> bool),
+  (forall a, compare a a = true) ->
+  (p_sg1 p = 1 \/ p_sg1 p = -1)%Z /\ (p_sg2 p = 1 \/ p_sg2 p = -1)%Z /\ (p_sg3 p = 1 \/ p_sg3 p = -1)%Z /\
+  (p_sg4 p = 1 \/ p_sg4 p = -1)%Z /\ (p_sg5 p = 1 \/ p_sg5 p = -1)%Z /\ (p_sg6 p = 1 \/ p_sg6 p = -1)%Z ->
+  let q := qint p j in
+  0 < p_a2 p * p_a2 p + p_c3 p * p_c3 p -> p_c2 p <> 0 ->
+  0 < aX (p_a2 p) (p_c2 p) (p_c3 p) (j2 q) (j3 q) * aX (p_a2 p) (p_c2 p) (p_c3 p) (j2 q) (j3 q) +
+      aZ (p_a2 p) (p_c2 p) (p_c3 p) (j2 q) (j3 q) * aZ (p_a2 p) (p_c2 p) (p_c3 p) (j2 q) (j3 q) ->
+  aX (p_a2 p) (p_c2 p) (p_c3 p) (j2 q) (j3 q) + p_a1 p <> 0 ->
+  sin (j5 q) <> 0 ->
+  forall (dof : Z) (cons : option (@Constraints R)) (kernel5 : Iso -> R -> list (list R)),
+  dof <> 5%Z -> compliant_opt PI cons [j1 j; j2 j; j3 j; j4 j; j5 j; j6 j] = true ->
+  exists s, In s (inverse PI dof cons Iso (the_kernel p compare (ik_theta_def p)) kernel5 (fwd p j)) /\
+            Forall2 (is_rep PI) s [j1 j; j2 j; j3 j; j4 j; j5 j; j6 j].
+Proof. intros p j compare Hr Hsg q. exact (inverse_complete p j compare Hr Hsg). Qed.
+
+(** non-vacuity: an ABB IRB2400-like geometry at a generic configuration meets every hypothesis *)
+Example C02_complete_nonvacuous :
+  let p := mkParams (1/10) (-27/200) 0 (123/200) (141/200) (151/200) (17/200) 0 0 0 0 0 0 1 1 1 1 1 1 6 in
+  let q := mkJ6 0 0 0 0 (PI / 2) 0 in
+  0 < p_a2 p * p_a2 p + p_c3 p * p_c3 p /\ p_c2 p <> 0 /\
+  0 < aX (p_a2 p) (p_c2 p) (p_c3 p) (j2 q) (j3 q) * aX (p_a2 p) (p_c2 p) (p_c3 p) (j2 q) (j3 q) +
+      aZ (p_a2 p) (p_c2 p) (p_c3 p) (j2 q) (j3 q) * aZ (p_a2 p) (p_c2 p) (p_c3 p) (j2 q) (j3 q) /\
+  aX (p_a2 p) (p_c2 p) (p_c3 p) (j2 q) (j3 q) + p_a1 p <> 0 /\ sin (j5 q) <> 0.
+Proof.
+  cbv zeta. unfold aX, aZ. cbn [p_a1 p_a2 p_c2 p_c3 j2 j3 j5].
+  rewrite Rplus_0_l, sin_0, cos_0, sin_PI2.
+  repeat split; try lra; nra.
+Qed.
